@@ -844,3 +844,7 @@ impl Default for FailSafe {
         Self::new()
     }
 }
+
+#[cfg(any(kani, verif_replay))]
+#[path = "/verif/kani/failsafe.rs"]
+pub(crate) mod verif_kani_failsafe;
